@@ -13,8 +13,8 @@ P["C06"]=dict(level="other",
  bounds="non-generic Failover; <=2 WithTTL calls by the builder; one Get; backend is a stub recording TTL(ctx)",
  outside="the waiter path, the generic FailoverOf variant (same context code), real backends' use of the TTL (C10)",
  assumptions=["backend is a harness stub that records the context it is called with"],
- quick=dict(harnesses=["verifH_C06_ColdMiss","verifH_C06_StaleRefresh"]),
- thorough=dict(harnesses=["verifH_C06_ColdMiss","verifH_C06_StaleRefresh"]))
+ quick=dict(harnesses=["verifH_C06_ColdMiss","verifH_C06_StaleRefresh","verifH_C06_SkipAfterFailure","verifH_C06_SkipAfterFailureOf"]),
+ thorough=dict(harnesses=["verifH_C06_ColdMiss","verifH_C06_StaleRefresh","verifH_C06_SkipAfterFailure","verifH_C06_SkipAfterFailureOf"]))
 
 P["C11"]=dict(level="other",
  explanation="(a) Inductive step: one (quick) or two (thorough) cleanup cycles of the real Trait.invokeCleanup and deleteExpired of ShardedMap, SyncMap and ShardedMapOf[int] executed symbolically from an arbitrary pre-state of <=3 entries built in-package (two of the keys share a shard; expiry E any int64 including 0, presence bits, DeleteExpiredAfter, clock, TimeToLive finite/Unlimited and expirationsSet symbolic); survival of each entry is compared with the reference predicate E==0 or E>=now-DeleteExpiredAfter by z3. The pre-state invariant 'UnlimitedTTL and expirationsSet==0 implies no dated entry' is assumed there and justified by (b). (b) Histories through the public API (verifH_C11_History_*): an entry is written, becomes dated by a per-call TTL, by ExpireAll, or by Dump/Restore into a second cache of the same configuration; after an arbitrary time one cleanup cycle runs on the very Trait the constructor started its janitor goroutine on (the executor records the receiver of the go statement); the entry must be gone exactly when it has been expired for longer than DeleteExpiredAfter.",
@@ -37,11 +37,11 @@ P["C09"]=dict(level="other", technique="bounded symbolic execution (inductive st
  explanation="The C07 step harness with the injectivity assumption on the (uninterpreted, hence arbitrary) hash removed: any two of the keys in play may share their 64-bit hash. Read/Write/Delete on key k must never return, report as stale or delete the entry of a different key k' (the reference model only lets a Write take over the hash slot of a colliding key, i.e. a collision costs at most a miss), and after Write the caller's key buffer is overwritten with arbitrary bytes before the post-state is compared (no reference to the caller's slice is kept). Label indexing with a reused buffer is covered in the C15 harness; the Failover background-build buffer reuse is covered by verifH_C09_FailoverBuffer.",
  bounds="as C07, ShardedMap and ShardedMapOf[int] (SyncMap is keyed by the full string, see C07); Read/Write/Delete",
  outside="keys longer than 2 bytes; real 64-byte xxhash collisions are subsumed by the arbitrary hash function but not replayed with the real hash",
- assumptions=["xxhash.Sum64 is an uninterpreted function (any hash function)","representation invariant assumed for the pre-state: at most one entry per hash slot","Failover side: in the *_collide compositions (two concurrent Gets on two different keys, provenance oracle of C02) every hash the code under test computes - also of concrete keys - is an uninterpreted function value, so the two keys may collide"],
+ assumptions=["xxhash.Sum64 is an uninterpreted function (any hash function)","representation invariant assumed for the pre-state: at most one entry per hash slot","Failover side: in the *_collide compositions (two concurrent Gets on two different keys, provenance oracle of C02) every hash the code under test computes - also of concrete keys - is an uninterpreted function value, so the two keys may collide","backends under concurrency: verifL_Collide_* run Read/Delete of key a against a Write of key b on the sharded backends with both keys in one shard and an uninterpreted hash (they may collide): the completed Write of b survives and a never sees b's value"],
  quick=dict(harnesses=["verifH_C09_ShardedMap_keyed","verifH_C09_ShardedMapOf_keyed","verifH_C09_ShardedMapOf_batch","verifH_C09_ShardedMap_ls"], jobs=4, workers=6,
-   l2=["verifL_Failover_1_env:l2","verifL_FailoverOf_1_env:l2","verifL_Failover_2_collide:l2","verifL_FailoverOf_2_collide:l2"], l2_labels="stored under the key its Get|no key lock remains|a value returned with nil error|an error returned was produced|get returned", l2_jobs=2, l2_par=16),
+   l2=["verifL_Failover_1_env:l2","verifL_FailoverOf_1_env:l2","verifL_Failover_2_collide:l2","verifL_FailoverOf_2_collide:l2","verifL_Collide_ShardedMap:l2","verifL_Collide_ShardedMapOf:l2"], l2_labels="stored under the key its Get|no key lock remains|a value returned with nil error|an error returned was produced|get returned|a completed Write of another key|Read never returns the value|collide:", l2_jobs=2, l2_par=16),
  thorough=dict(harnesses=["verifH_C09_ShardedMap_keyed","verifH_C09_ShardedMap_batch","verifH_C09_ShardedMap_ls","verifH_C09_ShardedMapOf_keyed","verifH_C09_ShardedMapOf_batch","verifH_C09_ShardedMapOf_ls"], jobs=3, workers=5,
-   l2=["verifL_Failover_1_env:l2","verifL_FailoverOf_1_env:l2","verifL_Failover_2_env:l2","verifL_FailoverOf_2_env:l2","verifL_Failover_2_collide:l2","verifL_FailoverOf_2_collide:l2"], l2_labels="stored under the key its Get|no key lock remains|a value returned with nil error|an error returned was produced|get returned", l2_jobs=2, l2_par=16, l2_timeout=600))
+   l2=["verifL_Failover_1_env:l2","verifL_FailoverOf_1_env:l2","verifL_Failover_2_env:l2","verifL_FailoverOf_2_env:l2","verifL_Failover_2_collide:l2","verifL_FailoverOf_2_collide:l2","verifL_Collide_ShardedMap:l2","verifL_Collide_ShardedMapOf:l2"], l2_labels="stored under the key its Get|no key lock remains|a value returned with nil error|an error returned was produced|get returned|a completed Write of another key|Read never returns the value|collide:", l2_jobs=2, l2_par=16, l2_timeout=600))
 
 P["C15"]=dict(level="other",
  explanation="Real NewInvalidationIndex/AddCache/AddLabels/AddInvalidationLabels/InvalidateByLabels/invalidateByLabels(+deferred put-back)/cutKeys executed symbolically with scripted deleter stubs: the key/label incidence bits, repeated labelling, label argument order and multiplicity, an ErrNotFound answer, the position of a failing Delete call (in either of two deleters), map iteration order (2 permutations) are solver variables the code branches on; every index/slice bound and explicit panic is an obligation. After a nil return every labelled key was passed to every deleter of its name exactly once, no other key was, count = removed entries; on failure the deleter's error is returned and a retry after recovery removes every labelled key. A second harness uses the real ShardedMap/SyncMap/ShardedMapOf Delete as deleter.",
@@ -87,7 +87,7 @@ P["C18"]=dict(level="other",
 
 P["C10"]=dict(level="other",
  explanation="Kernel: the real Trait.TTL (default/override/Unlimited precedence, jitter, expirationsSet bump) executed symbolically in integer mode (mathematical integers with no-overflow side conditions, reals for float64) for every context TTL and configured TimeToLive with |T|<2^60 ns, every rand in [0,1), jitter disabled / the default / {0.05,0.1,0.25,0.5,1} and (second harness) any jitter in (0,1]; result compared with the contract T'=T exactly without jitter, |T'-T| <= |T|*J/2 (+1 ns truncation, 1e-15 relative slack) and same sign with jitter, 0 for Unlimited without context TTL. Around it (bit-vector mode): Write on the three real backends with a stepping symbolic clock stores E in [t_before+T, t_after+T] (0 when T=0); a later Read returns the value iff now<=E, else ErrExpired whose ExpiredAt equals the instant Walk reports (tsTime/ts round trip through time.Unix).",
- bounds="|TTL| < 2^60 ns at config and context level, clock in [2^60,2^62] ns; float64 operations on symbolic operands are idealised as exact real operations (with full rounding-error terms z3 answers unknown; int64->float64 is exact below 2^53 ns = 104 days, above that the real code itself deviates by up to 2^-52 relative, which the idealisation does not see)",
+ bounds="|TTL| < 2^60 ns in the jitter kernel, |TTL| < 2^62 ns (expiry instants before 1970 included) in the Write/Read/Walk harnesses, clock in [2^60,2^62] ns; float64 operations on symbolic operands are idealised as exact real operations (with full rounding-error terms z3 answers unknown; int64->float64 is exact below 2^53 ns = 104 days, above that the real code itself deviates by up to 2^-52 relative, which the idealisation does not see)",
  outside="float rounding of multi-month TTLs; the sentinel collision now+T'==0; NaN/Inf jitter",
  assumptions=["float64 arithmetic idealised as real arithmetic in the kernel harness","rand.Float64 returns any real in [0,1)"],
  quick=dict(harnesses=["verifH_C10_TTLKernelIdeal:int","verifH_C10_TTLKernelIdealSymJ:int","verifH_C10_ShardedMap","verifH_C10_SyncMap","verifH_C10_ShardedMapOf"], jobs=5, workers=3, timeout=60),
